@@ -9,6 +9,7 @@
                            one=   one_error cutoff P
      fronts <n> <k> name*k PROG   outcomes of resolve under seed_oracle 0..n-1 and under front_oracle f
                            (the oracle that puts f first every time it is asked) for the k given names
+     natnames PROG         index=name,name,... : what compiler.Program.nativeFuncNames[index] can hold
    PROG as in ocaml/c16/driver.ml.  Outcomes are separated by " | ". *)
 open Model
 open Wire
@@ -192,6 +193,22 @@ let handle = function
       let outs = List.init n (fun i -> res_string p (resolve (seed_oracle (nat_of_int i)) p))
                  @ List.map (fun f -> res_string p (resolve (front_oracle f) p)) fronts in
       String.concat " | " (uniq outs)
+  | "natnames" :: toks ->
+      (* for every index i below the number of Go functions: the names nativeFuncNames[i]
+         can hold, over every order of the funcInfo map's keys (all permutations up to
+         6 keys, rotations of the key list and of its reverse above) *)
+      let p = p_prog toks in
+      let keys = func_keys p in
+      let orders =
+        if List.length keys <= 6 then ml_perms keys
+        else begin
+          let rot l k = let n = List.length l in List.init n (fun j -> List.nth l ((j + k) mod n)) in
+          List.concat (List.init (List.length keys) (fun k -> [rot keys k; rot (List.rev keys) k]))
+        end in
+      let nn = List.length (uniq (List.map (fun n -> n.n_name) p.p_natives)) in
+      String.concat " " (List.init nn (fun i ->
+        let names = uniq (List.map (fun o -> match name_shown p o (z_of_int i) with Some n -> hx n | None -> "none") orders) in
+        Printf.sprintf "%d=%s" i (String.concat "," names)))
   | op :: _ -> "driver-error unknown-op " ^ op
   | [] -> "driver-error empty"
 
